@@ -40,9 +40,15 @@ def members(M):
     }
 
 
+class NameStr(str):
+    """A name held in a str subclass (what a str-mixin Enum member, a numpy string or a tagged string of an application is)."""
+
+
 def casings(n):
     alt = "".join(c.upper() if i % 2 else c.lower() for i, c in enumerate(n))
-    return {"lower": n.lower(), "upper": n.upper(), "capital": n.capitalize(), "alternate": alt, "asis": n}
+    d = {"lower": n.lower(), "upper": n.upper(), "capital": n.capitalize(), "alternate": alt, "asis": n}
+    d.update({k + "-strsubclass": NameStr(v) for k, v in list(d.items())})
+    return d
 
 
 def _lookup(M, how, key):
@@ -61,7 +67,7 @@ def _lookup(M, how, key):
 
 
 def shards(tier, seed):
-    return [("tables", name) for name in tables()] + [("datatypes",), ("services",), ("status",), ("extstatus",)]
+    return [("tables", name) for name in tables()] + [("datatypes",), ("services",), ("status",), ("extstatus",), ("reply-text",)]
 
 
 def describe(tier, seed):
@@ -341,9 +347,46 @@ def check_extstatus(rep):
                         )
 
 
+def check_status_in_replies(rep):
+    """The same lookups where an application meets them: the error text of a refused generic message, over a connection, through UCMM
+    and through an Unconnected Send, for every status byte and every (status, extended status) pair of the tables (1 and 2 words)."""
+    from pycomm3.cip import EXTEND_CODES, SERVICE_STATUS
+    from . import c13
+    from .harness import call
+
+    for transport in ("connected", "ucmm", "ucsend"):
+        wd = c13.World("cip")
+        call(wd.d.open)
+        kw = dict(connected=True) if transport == "connected" else dict(connected=False, unconnected_send=(transport == "ucsend"), route_path=(transport == "ucsend"))
+        for st in range(1, 256):
+            if st == 6:
+                continue
+            exts = [()] + [e for c in EXTEND_CODES.get(st, {}) for e in ((c,), (c, 0))] + [(0x7777,)]
+            for ext in exts:
+                wd.reply = (st, list(ext), b"")
+                wd.w.io_budget = wd.w.io_total + 6000
+                out = call(wd.d.generic_message, service=0x0E, class_code=0x99, instance=1, attribute=1, **kw)
+                err = out[1].error if out[0] == "ok" else None
+                txt = SERVICE_STATUS.get(st)
+                named = isinstance(err, str) and ((txt is not None and txt in err) or f"{st:02x}" in err.lower())
+                value = sum(w << (16 * i) for i, w in enumerate(ext))
+                ext_txt = EXTEND_CODES.get(st, {}).get(value) if ext else None
+                ok = out[0] == "ok" and not bool(out[1]) and named and (ext_txt is None or ext_txt in err)
+                rep.case(("reply-text", transport, st, ext), outcome="ok:" + ("ext" if ext_txt else "status") if ok else "bad")
+                if not ok:
+                    rep.violation(f"status-text-in-reply/{transport}/{'extended' if ext_txt else 'status'}/words{len(ext)}",
+                                  f"generic message ({transport}) refused with status {st:#04x} ext {[hex(x) for x in ext]}: error {err!r:.120}; table texts {txt!r:.50} / {ext_txt!r:.60} ({out!r:.60})",
+                                  {"kind": "reply-text", "transport": transport})
+        wd.close()
+    rep.sample({"reply_texts": "status 1..255 x extended-status pairs of the table x 3 transports"})
+
+
 def run_shard(shard, tier, seed):
     rep = Report()
     kind = shard[0]
+    if kind == "reply-text":
+        check_status_in_replies(rep)
+        return rep
     if kind == "tables":
         check_table(rep, shard[1], tables()[shard[1]])
     elif kind == "datatypes":
@@ -368,6 +411,8 @@ def replay(r):
         check_services(rep)
     elif k == "status":
         check_status(rep)
+    elif k == "reply-text":
+        check_status_in_replies(rep)
     else:
         check_extstatus(rep)
     for sig, vs in rep.violations.items():
